@@ -126,6 +126,19 @@ pub fn receipts(r: &TrafficRun) -> Vec<Vec<i64>> {
     let mut out = vec![vec![]; n];
     let b = r.sim.bus.0.borrow();
     for rec in b.trace.iter() {
+        // phantom tokens (see `possession`): an additional receipt only splits a visit, which weakens
+        // every clause built on the receipts
+        if rec.bytes.first() != Some(&rc::SD4) {
+            for (k, nd) in r.sim.nodes.iter().enumerate() {
+                if rec.sender != k && phantom_token_for(&rec.bytes, nd.addr) {
+                    let arr = (rec.end_ns + 999) / 1000;
+                    let pl = &nd.poll_log;
+                    if let Some(p) = pl.get(pl.partition_point(|p| *p < arr)) {
+                        out[k].push(*p);
+                    }
+                }
+            }
+        }
         if let Some(RefFrame::Token { da, sa }) = rc::decode_one(&rec.bytes) {
             if let Some(k) = r.sim.nodes.iter().position(|nd| nd.addr == da) {
                 if da == sa && rec.sender == k {
@@ -144,26 +157,51 @@ pub fn receipts(r: &TrafficRun) -> Vec<Vec<i64>> {
     out
 }
 
-/// Within a token visit every message cycle after the first starts before (previous token receipt +
-/// TTR); a visit whose first cycle starts at or after that deadline has exactly one cycle.
+/// '... or the hold time is over' (C15): within a token visit every message cycle after the first
+/// starts before the hold time is over.  Visits are delimited by what certainly ends or may begin one:
+/// the station's own token telegrams and every token telegram addressed to it (scripted peers may send
+/// such telegrams too - an extra boundary only splits a visit, which makes the demand weaker).  The
+/// instant the station stamped on a token is not observable; the first application callback of the
+/// visit comes at most a synchronisation pause and a poll later, so `first callback of the previous
+/// visit + TTR` is never earlier than the real end of the hold time.
 fn hold_time_clause(r: &TrafficRun) -> CaseResult {
-    let rec = receipts(r);
     let log = r.log.borrow();
     let ttr_us = r.cfg.baud.bits_to_time(r.cfg.ttr_bits).total_micros() as i64 + 1;
     for x in 0..r.sim.nodes.len() {
         let addr = r.sim.nodes[x].addr;
-        let sends: Vec<i64> = log.iter().filter_map(|c| match c { Cb::Tx { t, station, sent: Some(_), .. } if *station == x => Some(*t), _ => None }).collect();
-        for k in 1..rec[x].len() {
-            let (start, end) = (rec[x][k], rec[x].get(k + 1).copied().unwrap_or(i64::MAX));
-            if start == rec[x][k - 1] {
-                continue;
+        let bounds: Vec<i64> = possession(r, x, addr).iter().map(|(t, _)| (*t + 999) / 1000).collect();
+        let calls: Vec<(i64, bool)> = log.iter().filter_map(|c| match c { Cb::Tx { t, station, sent, .. } if *station == x => Some((*t, sent.is_some())), _ => None }).collect();
+        let mut prev_tok: Option<i64> = None;
+        let mut ci = 0usize;
+        for w in 0..bounds.len() {
+            let (from, to) = (bounds[w], bounds.get(w + 1).copied().unwrap_or(i64::MAX));
+            // callbacks in (from, to]
+            while ci < calls.len() && calls[ci].0 < from {
+                ci += 1;
             }
-            let deadline = rec[x][k - 1] + ttr_us;
-            let in_visit: Vec<i64> = sends.iter().copied().filter(|t| *t >= start && *t < end).collect();
-            for (j, t) in in_visit.iter().enumerate() {
-                if j >= 1 && *t >= deadline {
-                    fail!("hold-time", "station #{addr}: message cycle #{} of a token visit started at {} us, but the hold time (previous token receipt {} us + TTR {} us) was over at {} us", j + 1, t, rec[x][k - 1], ttr_us, deadline);
+            let mut k = ci;
+            let mut first: Option<i64> = None;
+            let mut cycles = 0usize;
+            while k < calls.len() && calls[k].0 <= to {
+                let (t, sent) = calls[k];
+                if t >= from {
+                    if first.is_none() {
+                        first = Some(t);
+                    }
+                    if sent {
+                        cycles += 1;
+                        if let Some(pt) = prev_tok {
+                            let deadline = pt + ttr_us;
+                            if cycles >= 2 && t >= deadline {
+                                fail!("hold-time", "station #{addr}: message cycle #{} of a token visit started at {} us, but the hold time (token of the previous visit taken at {} us at the latest, + TTR {} us) was over at {} us", cycles, t, pt, ttr_us, deadline);
+                            }
+                        }
+                    }
                 }
+                k += 1;
+            }
+            if let Some(f) = first {
+                prev_tok = Some(f);
             }
         }
     }
@@ -341,9 +379,21 @@ fn possession(r: &TrafficRun, x: usize, addr: u8) -> Vec<(i64, bool)> {
             } else if da == addr {
                 v.push((rec.end_ns, true));
             }
+        } else if rec.sender != x && phantom_token_for(&rec.bytes, addr) {
+            // a token telegram can also materialise from the inside of another telegram: after a
+            // collision (late peers) the listeners discard the garbled head of a transmission and decode
+            // what follows - `DC <addr> xx` there is a token for this station (no checksum).  Happens with
+            // a peer at address 92 (0x5C | 0x80 = 0xDC) answering with SAPs.
+            v.push((rec.end_ns, true));
         }
     }
     v
+}
+
+/// Do the bytes of a transmission contain, behind its first byte, something that reads as a token
+/// telegram addressed to `addr`?
+fn phantom_token_for(bytes: &[u8], addr: u8) -> bool {
+    bytes.windows(3).skip(1).any(|w| w[0] == rc::SD4 && w[1] == addr)
 }
 
 /// 'The token is passed once every application has declined once or the hold time is over' read
@@ -447,6 +497,12 @@ fn c15_oracle(r: &TrafficRun, obs: &mut Obs) -> CaseResult {
                     // (a) token owner
                     let i = own.partition_point(|(at, _)| *at <= *t * 1000);
                     let has = i > 0 && own[i - 1].1;
+                    if !has && std::env::var("PBVERIF_DUMP").is_ok() {
+                        eprintln!("possession of node {x} (#{addr}): {:?}", own.iter().filter(|(at, _)| *at > (*t - 60000) * 1000 && *at < (*t + 1000) * 1000).collect::<Vec<_>>());
+                        for q in b.trace.iter().filter(|q| q.start_ns > (*t - 60000) * 1000 && q.start_ns < (*t + 1000) * 1000) {
+                            eprintln!("  {} ns node{} {} {}", q.start_ns, q.sender, crate::props::c09::hex(&q.bytes), if q.overlapped { "OVERLAP" } else { "" });
+                        }
+                    }
                     ensure!(has, "tx-without-token", "application {} of station #{addr} was asked for a telegram at {} us, after it had passed the token on and before any token telegram addressed to it", app, t);
                     // (a) no reply outstanding
                     if let Some((oa, oda, ot)) = outstanding {
